@@ -132,6 +132,13 @@ def pivot():
     S.append(EnumSpec("DataG", [U("A", fields=[Field("T")]), U("B"), U("H", disabled=True), U("C", fields=[Field("u32", name="k")], named=True)],
                       derives=d, std_derives=["Debug", "Clone", "PartialEq"], generics="<T: Default + PartialEq + Clone + core::fmt::Debug>",
                       ty_args="<u8>", subst={"T": "u8"}, note="generic, no repr, payloads"))
+    S.append(EnumSpec("SkipLeak", [U("Off"), U("Reserved", disabled=True), U("Low", disc="10", disc_val=10), U("Mid"), U("R2", disabled=True), U("R3", disabled=True),
+                                   U("High", disc="40", disc_val=40), U("Top")], derives=d, std_derives=std, repr="u8",
+                      note="disabled implicit variant(s), then an explicit discriminant, then an implicit one"))
+    S.append(EnumSpec("TwoRepr", [U("A"), U("B", disc="7", disc_val=7), U("C")], derives=d, std_derives=std, repr="u8", raw_attrs=["#[repr(align(4))]"],
+                      note="two #[repr] attributes, the integer one second: from_repr must take the integer type"))
+    S.append(EnumSpec("TwoReprSigned", [U("N", disc="-2", disc_val=-2), U("Z"), U("P", disc="5", disc_val=5)], derives=d, std_derives=std, repr="i8",
+                      raw_attrs=["#[repr(align(2))]"], note="two #[repr] attributes with a signed integer type and a negative discriminant"))
     # 9. zero variants / all disabled
     S.append(EnumSpec("AllOff", [U("A", disabled=True), U("B", disabled=True)], derives=d, std_derives=std, repr="u8",
                       note="all variants disabled"))
@@ -174,9 +181,9 @@ def random_specs(rng, n):
                     for k in range(1, bits):
                         if ((2 ** bits - 1) >> k) == cur:
                             forms.append("!0 >> %d" % k)
-                if cur > 0 and cur & (cur - 1) == 0 and R is not None:
+                if cur > 0 and cur & (cur - 1) == 0 and R is not None and cur.bit_length() - 1 < (bits - 1 if signed else bits):
                     forms.append("1 << %d" % (cur.bit_length() - 1))
-                if cur < 0 and (-cur) & (-cur - 1) == 0 and R is not None:
+                if cur < 0 and (-cur) & (-cur - 1) == 0 and R is not None and (-cur).bit_length() - 1 < bits - 1:
                     forms.append("-(1 << %d)" % ((-cur).bit_length() - 1))
                 if 2 <= cur <= hi and cur % 2 == 0:
                     forms.append("%d * 2" % (cur // 2))
